@@ -27,7 +27,7 @@ func VerifHarness_C16_conn() {
 	verifAssume(pt[0][0] != pt[1][0]) // distinguishable payloads, so that "at most once" is observable
 	maxd := verifBound(3, 4)
 	if kind == vcCBC {
-		maxd = verifBound(2, 3) // CBC: every feasible padding length of a forgery is its own path
+		maxd = 2 // CBC: every feasible padding length of a forgery is its own path (3 deliveries with several forgeries did not finish in 7 minutes on 16 cores: outside both tiers)
 	}
 	m := verifSplitInt("deliveries", 1, maxd)
 	rt := &verifPConn{}
@@ -61,8 +61,8 @@ func VerifHarness_C16_conn() {
 			vmac.recStarts = append(vmac.recStarts, len(vmac.wire))
 			vmac.wire = append(vmac.wire, f...)
 			rt.in = append(rt.in, f)
-			if forged && kind == vcCBC && verifBound(0, 1) == 0 {
-				verifAssume(false) // quick tier, CBC: at most one forgery per run
+			if forged && kind == vcCBC {
+				verifAssume(false) // CBC: at most one forgery per run (both tiers)
 			}
 			forged = true
 		}
